@@ -151,8 +151,11 @@ func verifC13Step(n int) {
 	if n > 0 || verifNondetBool("has_manifest") {
 		head.put(releaseManifestPath, verifSerializeManifest(pre))
 	}
+	// every workspace operation of the step may fail: a failed write that the code ignores would
+	// leave the manifest naming a file that was never written
 	vcs := &verifVCS{head: head}
 	c, _ := vcs.GetChangeOps(context.Background())
+	vcs.faults = true
 	cops := c.(*verifCops)
 	ec := &Context{VCS: vcs, OutDir: "out", Image: image, CandidateName: cand, Timestamp: time.Unix(int64(verifNondetU32("ts")), 0)}
 	ctx := NewContext(context.Background(), ec)
